@@ -216,6 +216,9 @@ def specs(tier):
         out.append((f"comment-b{vl}", [("comment", vl)]))
     for n in range(1, vl1 + 1):
         out.append((f"qentry-q{n}", [("qentry", n)]))
+    for word in ("comment", "string", "preamble"):
+        for n in (1, 2):
+            out.append((f"resvtype-{word}-{n}", [("resvtype", word, n)]))
     # blanks / tabs between '@type' and '{' (hws of the grammar)
     for hw in (1, 2):
         out.append((f"entry1-hw{hw}", [("entry", 1, 1, 2, 0, False, hw)]))
@@ -249,7 +252,7 @@ def main():
     chk = Check("C02", __doc__)
     sp = specs(chk.tier)
     chk.bounds = {"templates": len(sp), "value holes": f"<= {7 if chk.tier == "thorough" else 6} chars over {G.V_SIGMA!r} restricted to `value`",
-                  "quoted-value holes": f"'\"' + <= {7 if chk.tier == 'thorough' else 6} chars over {G.Q_SIGMA!r} + '\"' restricted to `value`", "key holes": f"1-2 chars over {G.K_SIGMA!r}", "whitespace holes": f"0-1 chars over {G.W_SIGMA!r}",
+                  "entry types that start with a reserved word": "@comment / @string / @preamble (any letter case) + 1..2 letters over a, s, S + {k, f = {v}}: an entry of that type", "quoted-value holes": f"'\"' + <= {7 if chk.tier == 'thorough' else 6} chars over {G.Q_SIGMA!r} + '\"' restricted to `value`", "key holes": f"1-2 chars over {G.K_SIGMA!r}", "whitespace holes": f"0-1 chars over {G.W_SIGMA!r}",
                   "free text holes": f"<= {4 if chk.tier == 'thorough' else 3} chars over {G.F_SIGMA!r}",
                   "block sequences": "all single blocks, all ordered pairs" + (", triples of entry/string/comment/free" if chk.tier == "thorough" else "")}
     chk.assumptions = ["documents are those derivable from the dialect grammar of DESIGN §3.1 within the template/hole bounds; duplicate keys are excluded by construction only where C09 covers them (pairs use independent key holes, so equal keys DO occur: a later equal-key entry/string is then expected as a DuplicateBlockKeyBlock and is skipped here)",
